@@ -188,6 +188,16 @@ theorem ffillFrom_spec (last : Option K) (xs : List (Option K)) (i : Nat) (hi : 
               | none => simp
               | some w => simp
 
+/-- **The tabular observation does not look ahead**: the observation served once `n` rows of a feature column
+    have been published (the last `window` of them, thinned by the stride) is the same for any two raw
+    columns that agree on their first `n` entries — altering rows dated later changes nothing. (The transformer
+    is row-wise and fitted on rows up to a date not after `t`, so the raw column here is its output.) -/
+theorem tabular_obs_causal (c : K) (xs xs' : List (Option K)) (n : Nat) (h : xs.take n = xs'.take n)
+    (window : Nat) (stride : Option Nat) :
+    thin stride (queueAfter window ((prepareColumn c xs).take n)) =
+      thin stride (queueAfter window ((prepareColumn c xs').take n)) := by
+  rw [prepare_causal, prepare_causal, h]
+
 /-- **The quotes traded are the given price widened by the configured spread**: the mid is the price, the
     gap is `price × spread`, the bid never exceeds the ask -/
 theorem quotes_widened (p s : K) (hp : 0 ≤ p) (hs : 0 ≤ s) :
